@@ -55,7 +55,11 @@ func VerifH_C12_sortContract() {
 	for i := 0; i < n; i++ {
 		secs[i] = vInt64("sec")
 		vAssume(vAnd(secs[i] >= 0, secs[i] < 1<<40))
-		us = append(us, Update{Index: vRange("index", 0, 1), Version: vInt("version"), Timestamp: time.Unix(secs[i], 0), ChangesetID: ChangesetID(i)})
+		ts := time.Unix(secs[i], 0)
+		if vRange("utc", 0, 1) == 1 {
+			ts = ts.UTC() // same instant, other location
+		}
+		us = append(us, Update{Index: vRange("index", 0, 1), Version: vInt("version"), Timestamp: ts, ChangesetID: ChangesetID(i)})
 	}
 	// distinct (index, time, version) triples
 	for i := 0; i < n; i++ {
